@@ -819,6 +819,20 @@ func lawsAPI14(s sink, c case14, d *docCtx14) (string, bool) {
 			lawCopyIndependent14(s, c, d2, c.Path)
 		}
 	}
+	if cls == ClsOk && found != nil {
+		switch c.Op {
+		case "elemmatch", "elemappend", "setlabel", "teeset", "fieldmatchre":
+			lawHandle14(s, c, doc, found, nil)
+		case "fieldmatch":
+			if a.Create == nil || !kyaml.IsMissingOrNull(a.Create.build()) {
+				lawHandle14(s, c, doc, found, nil)
+			}
+		case "elemset":
+			if a.Element != nil && !kyaml.IsMissingOrNull(a.Element.build()) {
+				lawHandle14(s, c, doc, found, nil)
+			}
+		}
+	}
 	_, at, _ := lookupOn(d.orig, c.Path) // the node the filter is applied to (in the original)
 	switch c.Op {
 	case "elemmatch":
